@@ -5,10 +5,11 @@
   overwrites the caller's message after every Start); a retransmission happens only from a timeout the agent reported,
   i.e. strictly after the deadline, only while attempts remain, and advances the attempt counter by one (so at most
   `maxAttempts` retransmissions follow a Start); SetRTO leaves in-flight transactions alone; a finished transaction
-  writes nothing more. The counting statement "≤ n+1 writes per Start over a whole history" is checked by the
-  implementation-side predicate, not proved.
+  writes nothing more; and over a whole history a request is written at most n+1 times (`writes_at_most_n_plus_1`,
+  by a potential argument: Proofs/ClientWrites.lean).
 -/
 import Stun.Proofs.ClientHistory
+import Stun.Proofs.ClientWrites
 import Stun.Properties.C13
 namespace Stun.C11
 open Stun Stun.Client Stun.ClientProofs
@@ -88,5 +89,24 @@ theorem no_retransmit_when_disabled (c : Client) (h0 : c.maxAttempts = 0) (id : 
   intro hm
   obtain ⟨tx, _, _, _, hlt, _⟩ := retransmit_guard c id e raw h hm
   omega
+
+/-- Over any history (any number of transactions, responses, duplicates, garbage, ticks at any times, scripted write
+    failures, RTO changes, Close) on a client configured for `n` retransmissions, the request of a transaction is
+    written at most `n + 1` times: once by `Start` and at most `n` times by retransmissions. (`h` names the handler
+    given to exactly one `Start`, which is how the writes of one transaction are told apart.) -/
+theorem writes_at_most_n_plus_1 (n : Nat) (ops : List COp) (h : Nat) (hu : startCount h ops ≤ 1) :
+    wr h (allOuts (run ({ maxAttempts := n } : Client) ops).2) ≤ n + 1 := by
+  have hb := run_budget n h ops [] ({ maxAttempts := n } : Client) ⟨by simp, by simp [ckeys]⟩
+    (by intro p hp; simp at hp) rfl
+  have h0 : budget n h ({ maxAttempts := n } : Client) = 0 := rfl
+  have : (n + 1) * startCount h ops ≤ n + 1 := by
+    calc (n + 1) * startCount h ops ≤ (n + 1) * 1 := Nat.mul_le_mul_left _ hu
+      _ = n + 1 := Nat.mul_one _
+  omega
+
+/-- non-vacuity and tightness: with n = 2 and three deadlines passing, exactly 3 writes -/
+example : wr 1 (allOuts (run ({ maxAttempts := 2, rto := 10 } : Client)
+    [.start [1,2,3,4,5,6,7,8,9,10,11,12] [0,1] (some 1), .tick 11, .tick 100, .tick 1000, .tick 10000]).2) = 3 := by
+  decide
 
 end Stun.C11
